@@ -39,9 +39,7 @@ Proof.
       * rewrite Hlen. intros Hlt. apply len_nil_inv. unfold len in *. rewrite !skipn_length. subst a. lia.
       * intros He. rewrite He in Hlen. cbn in Hlen. lia.
     + apply N.ltb_ge in Ha. intros H. inversion H; subst c' chunk; clear H. cbn [cu_data cu_index app].
-      repeat split; auto; try (cbn; lia).
-      * cbn. intros Hr. subst a. lia.
-      * intros _. left. subst a. lia.
+      repeat split; auto; try (cbn; lia); try (cbn; intros; subst a; lia); try (intros _; left; subst a; lia).
   - apply N.ltb_ge in Hi. intros H. inversion H; subst c' chunk; clear H. cbn [cu_data cu_index app].
     assert (Hp : skipn (N.to_nat i) data = []) by (apply skipn_all2; unfold len in Hi; lia).
     repeat split; auto; cbn; try lia.
